@@ -33,6 +33,8 @@ func init() {
 			{ID: "C05.11", Desc: "trailer fields that appear while the body is read reach the stored entry", Run: func(c *Ctx) { ruleTrailersAfterRead(c, "C05.11") }, MinSites: 1},
 			{ID: "C05.12", Desc: "the response object given to the storer is the one that is returned (its body is replaced by a re-readable copy there)", Run: func(c *Ctx) { ruleStoreServedObject(c, "C05.12") }, MinSites: 1},
 			{ID: "C05.13", Desc: "the re-readable body reaches the live response after the last serialisation pass, on every way out", Run: func(c *Ctx) { ruleBodyHandedBackLast(c, "C05.13") }, MinSites: 1},
+			{ID: "C05.14", Desc: "the hop-by-hop set used for one response is not the shared table (Content-Length added by the 304 merge stays out of later responses)", Run: func(c *Ctx) { ruleHopTablePerResponse(c, "C05.14") }, MinSites: 1},
+			{ID: "C05.15", Desc: "the body of a response that is passed on is not closed by the cache", Run: func(c *Ctx) { ruleForwardedBodyNotClosed(c, "C05.15") }, MinSites: 1},
 		},
 	})
 }
